@@ -213,6 +213,9 @@ def generate(rng, tier):
             cands = fam_mod.candidates_of(fam_mod.base_vtype(f.vtype), prof)
             mm = max(cands) + 1
             n = rng.randint(1, max(1, len(cands)))
+            if not f.small_weights and fam_mod.base_vtype(f.vtype) != 'score' and rng.random() < 0.12:
+                # weight regime: counts beyond double precision, or rational counts (sums taken in a different order differ in floats)
+                prof = fam_mod.scale(prof, rng.choice([10 ** 18 + 3, 2 ** 53 + 1, 10 ** 30 + 7, Fraction(1, 3), Fraction(5, 2)]))
             perms = [fam_mod.permute(prof, rng) for _ in range(K_PERM)]
             rens = _names_variants(rng, mm)
             tags = ['perm'] + [t for t, _ in rens]
